@@ -328,17 +328,10 @@ def enum_programs(fields, maxlen, name, workers=None):
 _MISSING = object()
 
 
-def run_program(job):
-    """job = (id, lvl, field key, codes, offset, lax) -> case dict for TraceFields + values."""
-    cid, lvl, key, codes, offset, lax = job[:6]
-    force = list(job[6]) if len(job) > 6 else []      # explicit value descriptors for the Sets, in order
-    gfapy = _load_gfapy()
-    fd = field_by_key(key)
+def _run_calls(line, fd, codes, offset, lax, force):
+    """Run the calls of a program on field fd of `line`; -> (events, [[value, exception]])."""
     f = fd["name"]
-    res, line, exc = guarded(lambda: gfapy.Line(fd["line"], vlevel=lvl, version=fd["version"])
-                             if fd["version"] else gfapy.Line(fd["line"], vlevel=lvl))
-    if res != "ok":
-        raise MachineryError("cannot build base line %r at level %d: %s" % (fd["line"], lvl, exc))
+    key = fd["key"]
     evs, vals = [], []
     nset = 0
     for code in codes:
@@ -383,7 +376,23 @@ def run_program(job):
             raise MachineryError("unknown call code " + code)
         evs.append(ev)
         vals.append([val, exc])
-    return {"id": cid, "lvl": lvl, "f": key, "dt": fd["dt"],
+    return evs, vals
+
+
+def run_program(job):
+    """job = (id, lvl, field key, codes, offset, lax[, forced values]) -> case dict for
+    TraceFields + values.  The subject is a stand-alone gfapy.Line(text, vlevel=lvl)."""
+    cid, lvl, key, codes, offset, lax = job[:6]
+    force = list(job[6]) if len(job) > 6 else []      # explicit value descriptors for the Sets, in order
+    gfapy = _load_gfapy()
+    fd = field_by_key(key)
+    res, line, exc = guarded(lambda: gfapy.Line(fd["line"], vlevel=lvl, version=fd["version"])
+                             if fd["version"] else gfapy.Line(fd["line"], vlevel=lvl))
+    if res != "ok":
+        raise MachineryError("cannot build base line %r at level %d: %s" % (fd["line"], lvl, exc))
+    linelvl = line.vlevel
+    evs, vals = _run_calls(line, fd, codes, offset, lax, force)
+    return {"id": cid, "lvl": lvl, "f": key, "dt": fd["dt"], "conn": False, "linelvl": linelvl,
             "init": "absent" if fd["kind"] == "newtag" else "valid", "ev": evs}, vals
 
 
@@ -392,7 +401,9 @@ def validate_cases(kind, cases, name, nshards=None):
     if not cases:
         return {}, 0
     wd = tlc.workdir(name + "-shards")
-    nshards = max(1, min(nshards or NCPU, len(cases) // 200 + 1))
+    # at most ~12000 cases per shard file (a shard is one JSON constant of one TLC process);
+    # the shards run NCPU at a time
+    nshards = max(1, min(nshards or NCPU, len(cases) // 200 + 1), len(cases) // 12000 + 1)
     files = []
     for s in range(nshards):
         part = cases[s::nshards]
@@ -548,6 +559,192 @@ def check_programs(out, tier, seed, fields=None, maxlen=None):
 
 
 # --------------------------------------------------------------------------
+# C18 (b'): the same programs on lines OBTAINED FROM A Gfa built at level k, through every
+# creation path that constructs lines from text.  Every line of the documents carries the
+# custom tag xx:i:1 (comments: their content; segments: also their sequence).
+
+def _tagged(lines):
+    return [ln if ln.startswith(("#", "H\t")) else ln + "\txx:i:1" for ln in lines]
+
+
+_G1 = ["S\tA\tAC", "S\tB\tACGT", "L\tA\t+\tB\t-\t2M", "C\tB\t+\tA\t+\t1\t2M", "P\tp\tA+,B-\t2M", "# note"]
+_G2 = ["S\ta\t4\tACGT", "S\tb\t6\t*", "E\te\ta+\tb-\t0\t2\t4\t6$\t2M", "G\tg\ta+\tb-\t10\t*",
+       "F\ta\tx+\t0\t2\t0\t2\t*", "O\to\ta+ e+ b-", "U\tu\ta e g", "X\tcustom\t1", "# note"]
+
+
+def _rot(lines, first):
+    """The document with the first line of record type `first` moved to the front."""
+    i = [k for k, ln in enumerate(lines) if ln.startswith(first)][0]
+    return [lines[i]] + lines[:i] + lines[i + 1:]
+
+
+GDOCS = {
+    "g1.S-first": dict(version="gfa1", lines=_tagged(_G1)),
+    "g1.queued-L-C-P-first": dict(version="gfa1", lines=_tagged(_G1[2:5] + ["# early"] + _G1[:2] + _G1[5:])),
+    "g1.comment-first": dict(version="gfa1", lines=_tagged(["# first"] + _G1)),
+    "g1.VN-header": dict(version="gfa1", lines=_tagged(["H\tVN:Z:1.0", "H\txx:i:1"] + _G1)),
+    "g1.header-without-VN": dict(version="gfa1", lines=_tagged(["H\txx:i:1"] + _G1)),
+    "g2.S-first": dict(version="gfa2", lines=_tagged(_G2)),
+    "g2.VN-header": dict(version="gfa2", lines=_tagged(["H\tVN:Z:2.0", "H\txx:i:1"] + _G2)),
+    "g2.custom-and-comment-first": dict(version="gfa2", lines=_tagged(["X\tearly\t1", "# first"] + _G2)),
+}
+for _rt in ("E", "F", "G", "O", "U"):
+    GDOCS["g2.%s-first" % _rt] = dict(version="gfa2", lines=_tagged(_rot(_G2, _rt + "\t")))
+GPATHS = ["add", "add+version", "text", "text+version", "list", "file", "file+version"]
+
+
+def build_gfa(docname, path, lvl, wd=None):
+    gfapy = _load_gfapy()
+    doc = GDOCS[docname]
+    lines, ver = doc["lines"], doc["version"]
+    if path == "add":
+        g = gfapy.Gfa(vlevel=lvl)
+        for ln in lines:
+            g.add_line(ln)
+        g.process_line_queue()
+        return g
+    if path == "add+version":
+        g = gfapy.Gfa(vlevel=lvl, version=ver)
+        for ln in lines:
+            g.add_line(ln)
+        return g
+    if path == "text":
+        return gfapy.Gfa("\n".join(lines) + "\n", vlevel=lvl)
+    if path == "text+version":
+        return gfapy.Gfa("\n".join(lines), vlevel=lvl, version=ver)
+    if path == "list":
+        return gfapy.Gfa(list(lines), vlevel=lvl)
+    if path in ("file", "file+version"):
+        fn = os.path.join(wd or tlc.WORK, "fields-gdoc-%s-%d.gfa" % (docname, os.getpid()))
+        with open(fn, "w") as fh:
+            fh.write("\n".join(lines) + "\n")
+        try:
+            if path == "file":
+                return gfapy.Gfa.from_file(fn, vlevel=lvl)
+            return gfapy.Gfa.from_file(fn, vlevel=lvl, version=ver)
+        finally:
+            os.unlink(fn)
+    raise MachineryError("unknown creation path " + path)
+
+
+def _gfield(key, name):
+    fd = dict(field_by_key(key))
+    fd["name"] = name
+    return fd
+
+
+def gfa_subjects(gfa, seqfield=False):
+    """[(line object, field definition, label)]: every real line of the Gfa with the field the
+    program acts on (one field per line object: a segment's tag xx, or its sequence if seqfield)."""
+    subs = []
+    for i, o in enumerate(gfa.lines):
+        if o.virtual or o.record_type == "H":
+            continue
+        rt = o.record_type
+        if rt == "#":
+            subs.append((o, _gfield("comment:content", "content"), "%d:#.content" % i))
+            continue
+        if rt == "S" and seqfield:
+            k = "sequence_gfa1:sequence" if o.version == "gfa1" else "sequence_gfa2:sequence"
+            subs.append((o, _gfield(k, "sequence"), "%d:S.sequence" % i))
+        else:
+            subs.append((o, _gfield("i:xi", "xx"), "%d:%s.xx" % (i, rt)))
+    if "xx" in gfa.header.tagnames:
+        subs.append((gfa.header, _gfield("i:xi", "xx"), "header.xx"))
+    return subs
+
+
+def run_gfa_program(job):
+    """job = (docname, path, lvl, codes, offset) -> [(case, info)], one per subject line.  The Gfa
+    is built once; the subjects are distinct lines (or distinct fields), so the program is run on
+    each of them in turn."""
+    docname, path, lvl, codes, offset = job[:5]
+    seqfield = bool(job[5]) if len(job) > 5 else False
+    r, gfa, exc = guarded(lambda: build_gfa(docname, path, lvl), limit=60.0)
+    if r != "ok":
+        raise MachineryError("cannot build %s via %s at level %d: %s" % (docname, path, lvl, exc))
+    out = []
+    for line, fd, label in gfa_subjects(gfa, seqfield):
+        linelvl = line.vlevel
+        text0 = project.safe_str(line)
+        evs, vals = _run_calls(line, fd, codes, offset, False, [])
+        out.append(({"id": 0, "lvl": lvl, "f": fd["key"], "dt": fd["dt"], "conn": True, "linelvl": linelvl,
+                     "init": "valid", "ev": evs},
+                    {"vals": vals, "doc": docname, "path": path, "subject": label, "codes": list(codes),
+                     "offset": offset, "seqfield": seqfield, "text": text0}))
+    return out
+
+
+_GPROG_ALWAYS = [("set.wrongsyntax",), ("set.wrongsyntax", "str"), ("set.wrongsyntax", "write"),
+                 ("set.wrongtype", "validate"), ("set.valid", "str")]
+
+
+def check_gfa_programs(out, tier, seed):
+    rnd = random.Random(seed + 181)
+    xi = field_by_key("i:xi")
+    progs, st = enum_programs([xi], 2 if tier == "quick" else 3, "fields-mc-genum")
+    codes = sorted({p[2] for p in progs})
+    short = [c for c in codes if len(c) <= 2]
+    longer = [c for c in codes if len(c) > 2]
+    jobs = []
+    for docname in sorted(GDOCS):
+        for path in GPATHS:
+            for lvl in range(4):
+                if tier == "quick":
+                    chosen = list(_GPROG_ALWAYS) + rnd.sample(short, 3)
+                else:
+                    chosen = short + rnd.sample(longer, min(len(longer), 40))
+                for k, c in enumerate(dict.fromkeys(chosen)):
+                    jobs.append((docname, path, lvl, c, k % 2, (k // 2) % 2))
+    res = _pmap(run_gfa_program, jobs)
+    cases, infos = [], []
+    for lst in res:
+        for c, info in lst:
+            c["id"] = len(cases)
+            cases.append(c)
+            infos.append(info)
+    rejects, n = validate_cases("prog", cases, "fields-gprog")
+    subjects = {(i["doc"], i["path"], i["subject"]) for i in infos}
+    out.add_cov(states=st[1] + n, transitions=st[0] + n, traces_validated_against_impl=n,
+                gfa_program_cases=n, gfa_builds=len(jobs), gfa_documents=len(GDOCS), gfa_creation_paths=len(GPATHS),
+                gfa_subject_lines=len(subjects))
+    groups = {}
+    for cid, (clauses, at) in sorted(rejects.items()):
+        c, i = cases[cid], infos[cid]
+        rt = i["subject"].split(":")[-1]
+        first = i["subject"].split(":")[0]
+        call = c["ev"][at - 1]["k"] if at else "-"
+        key = (",".join(clauses), rt, call, c["linelvl"] == c["lvl"])
+        g = groups.setdefault(key, dict(n=0, levels=set(), where=set(), ex=None))
+        g["n"] += 1
+        g["levels"].add(c["lvl"])
+        g["where"].add("%s/%s/%s" % (i["doc"], i["path"], i["subject"]))
+        rank = (len(c["ev"]), i["doc"], i["path"], c["lvl"])
+        if g["ex"] is None or rank < g["rank"]:
+            g["ex"], g["rank"] = (c, i, at), rank
+    for key, g in sorted(groups.items()):
+        c, i, at = g["ex"]
+        calls = ["%s%s -> %s%s" % (e["k"], ("(%s %s)" % (e["c"], json.dumps(v[0]))) if e["k"] == "set" else "",
+                                  e["res"], (":" + v[1]) if v[1] else "") for e, v in zip(c["ev"], i["vals"])]
+        out.violations.append(dict(
+            family=FAM, kind="gprog", clauses=key[0].split(","),
+            input="doc=%s path=%s subject=%s program=%s" % (i["doc"], i["path"], i["subject"], ",".join(i["codes"])),
+            api="Gfa construction + Line.set/get/field_to_s/str/validate", levels=sorted(g["levels"]),
+            occurrences=g["n"], where=sorted(g["where"])[:12],
+            gprogram=dict(doc=i["doc"], path=i["path"], lvl=c["lvl"], codes=i["codes"], offset=i["offset"],
+                          seqfield=i["seqfield"], subject=i["subject"]),
+            what="%s: line %r obtained from Gfa(%s via %s, vlevel=%d) has line.vlevel=%d: %s; %d cases, e.g. %s" % (
+                key[0], i["text"], i["doc"], i["path"], c["lvl"], c["linelvl"], "; ".join(calls), g["n"],
+                sorted(g["where"])[:3])))
+    if cases:
+        k = len(cases) // 3
+        out.samples.append({"gfa": [infos[k]["doc"], infos[k]["path"], cases[k]["lvl"]], "subject": infos[k]["subject"],
+                            "line.vlevel": cases[k]["linelvl"], "program": infos[k]["codes"],
+                            "observed": [[e["res"], e["mark"]] for e in cases[k]["ev"]]})
+    return n
+
+
+# --------------------------------------------------------------------------
 # C18 (a): the same document at levels 0..3
 
 EXTRA_DOCS = [
@@ -667,6 +864,7 @@ def check_table():
 def check_c18(out, tier, seed):
     out.add_cov(table_strings_checked_against_lex=check_table())
     check_programs(out, tier, seed)
+    check_gfa_programs(out, tier, seed)
     check_levels(out, tier, seed)
     out.assumptions += [
         "TLC and the TLA+ semantics of spec/Fields.tla, MC_Fields.tla, TraceFields.tla",
@@ -676,6 +874,8 @@ def check_c18(out, tier, seed):
         "programs are bounded in length; documents are drawn from the catalogues of harness/core.py plus EXTRA_DOCS; "
         "'valid input' for the level comparison = accepted at level 3; values are spelled canonically "
         "(lazily parsed J/B/f values are written verbatim at level 0)",
+        "lines obtained from a Gfa: documents GDOCS x creation paths GPATHS of harness/fam_fields.py; the level "
+        "a constructed line must work at is the level of its Gfa (validation.rst)",
         "level 0: a Get (or the marked str) may replace an invalid encoded value by its decoded object "
         "(doc/tutorial/validation.rst: no validation at level 0)",
     ]
@@ -1248,7 +1448,205 @@ def run_value(job):
     return case, {"exc": exc, "text": text}
 
 
+# ---- tag histories: one custom tag through set / delete / set(None) / set_datatype
+
+NOVAL = _vd("none")
+HVALS = {"int": v_int(0, 0, 12), "float": v_float("1.5"), "str": v_str("hello"), "list": v_json('["a", 1]'),
+         "intlist": v_ints([(0, 0, 1), (0, 0, 2), (0, 0, 3)], False), "bytes": v_bytes([1, 255])}
+# initial states: a tag that does not exist, or a tag parsed from text with each declared datatype
+HINITS = {
+    "new": dict(text="", present=False, dt="none", v=NOVAL),
+    "i": dict(text="xx:i:1", present=True, dt="i", v=v_int(0, 0, 1)["v"]),
+    "f": dict(text="xx:f:0.5", present=True, dt="f", v=v_float("0.5")["v"]),
+    "Z": dict(text="xx:Z:abc", present=True, dt="Z", v=v_str("abc")["v"]),
+    "A": dict(text="xx:A:c", present=True, dt="A", v=v_str("c")["v"]),
+    "J": dict(text='xx:J:["a", 1]', present=True, dt="J", v=v_json('["a", 1]')["v"]),
+    "H": dict(text="xx:H:0AFF", present=True, dt="H", v=v_bytes([10, 255])["v"]),
+    "B": dict(text="xx:B:c,1,-1", present=True, dt="B", v=v_ints([(0, 0, 1), (0, 0, -1)], True)["v"]),
+}
+HSETDT = ["i", "Z", "J", "B"]
+
+
+def history_alphabet():
+    return [("set", k) for k in HVALS] + [("delete", ""), ("setnone", "")] + [("setdt", t) for t in HSETDT]
+
+
+def _observe_tag(gfapy, line, tag, lvl, assigned):
+    """What a "val" case records about the tag, after a call.  assigned: the Python value just
+    assigned (None otherwise)."""
+    o = {"present": tag in line.tagnames, "dt": "-", "val": "-", "vf": "-", "w": "-", "wchars": [], "s": "-",
+         "mark": False, "rb": {"res": "-", "dt": "-", "eq": "-", "eqv": "-"}}
+    exc = []
+    r, dt, e = guarded(lambda: line.get_datatype(tag))
+    exc.append(e)
+    o["dt"] = ("-" if dt is None else str(dt)) if r == "ok" else "!" + r
+    if not o["present"]:
+        r, text, e = guarded(lambda: str(line))
+        o["s"] = r
+        if r == "ok" and any(f.startswith(tag + ":") for f in text.split("\t")):
+            o["present"] = True            # still written
+        return o, exc
+    r, _, e = guarded(lambda: line.validate_field(tag))
+    exc.append(e)
+    o["vf"] = r
+    r, _, e = guarded(lambda: line.validate())
+    exc.append(e)
+    o["val"] = r
+    r, w, e = guarded(lambda: line.field_to_s(tag, tag=True))
+    exc.append(e)
+    o["w"] = r
+    if r == "ok":
+        o["wchars"] = list(w)
+    r, text, e = guarded(lambda: str(line))
+    exc.append(e)
+    o["s"] = r
+    o["mark"] = bool(r == "ok" and text.split("\t")[-1].startswith("# INVALID"))
+    if r == "ok" and not o["mark"]:
+        def readback():
+            l2 = gfapy.Line(text, vlevel=lvl)
+            return l2.get(tag), l2.get_datatype(tag)
+        r, got, e = guarded(readback)
+        exc.append(e)
+        o["rb"]["res"] = r
+        if r == "ok":
+            v2, dt2 = got
+            o["rb"]["dt"] = str(dt2)
+            r3, cur, e = guarded(lambda: line.get(tag))
+
+            def same(a, b):
+                if isinstance(a, float) and isinstance(b, float):
+                    return a == b and repr(a) == repr(b)
+                return bool(a == b)
+            o["rb"]["eq"] = _tri(r3, r3 == "ok" and same(v2, cur))
+            if assigned is not None and not (isinstance(assigned, str) and dt2 not in ("Z", "A")):
+                o["rb"]["eqv"] = "T" if same(v2, assigned) else "F"
+    return o, exc
+
+
+def run_history(job):
+    cid, lvl, init, ops, connected = job
+    gfapy = _load_gfapy()
+    hi = HINITS[init]
+    text = "S\tA\t*" + ("\t" + hi["text"] if hi["text"] else "")
+    if connected:
+        gfa = gfapy.Gfa(vlevel=lvl, version="gfa1")
+        for ln in (text, "S\tB\t*", "L\tA\t+\tB\t-\t*"):
+            gfa.add_line(ln)
+        line = gfa.segment("A")
+    else:
+        line = gfapy.Line(text, vlevel=lvl)
+    tag = "xx"
+    steps, excs = [], []
+    for k, a in ops:
+        assigned = None
+        op = {"k": k, "v": NOVAL, "t": "-"}
+        if k == "set":
+            assigned = mk(HVALS[a]["py"])
+            op["v"] = HVALS[a]["v"]
+            r, _, e = guarded(lambda: line.set(tag, assigned))
+        elif k == "delete":
+            r, _, e = guarded(lambda: line.delete(tag))
+        elif k == "setnone":
+            r, _, e = guarded(lambda: line.set(tag, None))
+        elif k == "setdt":
+            op["t"] = a
+            r, _, e = guarded(lambda: line.set_datatype(tag, a))
+        else:
+            raise MachineryError("unknown history op " + k)
+        o, exc = _observe_tag(gfapy, line, tag, lvl, assigned if r == "ok" else None)
+        o["set"] = r
+        steps.append({"op": op, "o": o})
+        excs.append([e] + exc)
+    return {"id": cid, "lvl": lvl, "init": {"present": hi["present"], "dt": hi["dt"], "v": hi["v"]},
+            "steps": steps}, {"exc": excs, "text": project.safe_str(line)}
+
+
+def history_jobs(tier, seed):
+    alpha = history_alphabet()
+    seqs = []
+    for n in (1, 2, 3) if tier == "quick" else (1, 2, 3, 4):
+        for t in itertools.product(alpha, repeat=n):
+            if any(k == "set" for k, _ in t):
+                seqs.append(t)
+    jobs = []
+    if tier == "quick":
+        plan = [(1, False, 3, None), (3, False, 3, None), (2, True, 3, None)]
+        inits = ["new", "i", "Z", "J", "B", "H"]
+    else:
+        plan = [(l, c, 3, None) for l in (1, 2, 3) for c in (False, True)] + [(1, False, 4, ["new", "i"])]
+        inits = sorted(HINITS)
+    seen = set()
+    for lvl, connected, maxlen, only in plan:
+        for init in (only or inits):
+            for t in seqs:
+                if len(t) <= maxlen and (lvl, connected, init, t) not in seen:
+                    seen.add((lvl, connected, init, t))
+                    jobs.append((len(jobs), lvl, init, t, connected))
+    return jobs
+
+
+def check_histories(out, tier, seed):
+    jobs = history_jobs(tier, seed)
+    res = _pmap(run_history, jobs)
+    rejects, n = validate_cases("hist", [r[0] for r in res], "fields-hist")
+    groups = {}
+    for cid, (clauses, at) in sorted(rejects.items()):
+        c, info = res[cid]
+        _, lvl, init, ops, connected = jobs[cid]
+        # the calls that matter: from the last removal / datatype declaration before the rejected call
+        key = (",".join(clauses), ops[at - 1][0], ops[at - 1][1] if ops[at - 1][0] != "set" else "",
+               c["steps"][at - 1]["o"]["dt"])
+        g = groups.setdefault(key, dict(n=0, levels=set(), ex=None))
+        g["n"] += 1
+        g["levels"].add(lvl)
+        rank = (at, len(ops), init != "new", connected, lvl, ops)
+        if g["ex"] is None or rank < g["rank"]:
+            g["ex"], g["rank"] = (cid, at), rank
+    for key, g in sorted(groups.items()):
+        cid, at = g["ex"]
+        c, info = res[cid]
+        _, lvl, init, ops, connected = jobs[cid]
+        calls = []
+        for (k, a), st, ex in zip(ops[:at], c["steps"], info["exc"]):
+            o = st["o"]
+            calls.append("%s(%s) -> %s, datatype %s, written %r%s" % (
+                k, json.dumps(HVALS[a]["py"]) if k == "set" else a, o["set"], o["dt"], "".join(o["wchars"]),
+                " [# INVALID]" if o["mark"] else ""))
+        out.violations.append(dict(
+            family=FAM, kind="hist", clauses=key[0].split(","),
+            input="tag xx (%s) on %s line: %s" % (init if init == "new" else HINITS[init]["text"],
+                                                "a connected" if connected else "a stand-alone",
+                                                "; ".join("%s(%s)" % (k, a) for k, a in ops[:at])),
+            api="Line.set/delete/set_datatype + get_datatype/field_to_s/str/Line(str)", levels=sorted(g["levels"]),
+            occurrences=g["n"], history=dict(lvl=lvl, init=init, ops=[list(x) for x in ops], connected=connected),
+            rejected_call=at,
+            what="%s: xx (%s, %s line): %s at vlevel %s; %d histories" % (
+                key[0], init, "connected" if connected else "stand-alone", "; ".join(calls), sorted(g["levels"]), g["n"])))
+    nontrivial = sum(1 for c, i in res if sum(1 for st in c["steps"] if st["o"]["rb"]["res"] == "ok") >= 2)
+    out.add_cov(evaluations=len(jobs), tag_histories=len(jobs), tag_histories_with_two_readbacks=nontrivial,
+                distinct_nontrivial=nontrivial, cases_validated_by_tlc=n)
+    if res:
+        c, i = res[len(res) // 2]
+        j = jobs[len(res) // 2]
+        out.samples.append({"history": [list(x) for x in j[3]], "init": j[2], "vlevel": j[1], "connected": j[4],
+                            "datatypes": [st["o"]["dt"] for st in c["steps"]],
+                            "written": ["".join(st["o"]["wchars"]) for st in c["steps"]]})
+    return n
+
+
 def check_c20(out, tier, seed):
+    _check_values(out, tier, seed)
+    check_histories(out, tier, seed)
+    out.cov["rule"] = (out.cov["rule"] + "; tag history = (initial tag, sequence of set/delete/set(None)/"
+                       "set_datatype calls, vlevel, stand-alone or connected line), judged after every call; "
+                       "non-trivial = at least two calls after which the tag was written and parsed back")
+    out.assumptions.append(
+        "tag histories: set(tag, None) is taken to be the same removal as delete(tag) (doc/tutorial/tags.rst: "
+        "\"To remove a tag from a line, use the delete(fieldname) method, or set its value to None\"); "
+        "histories run at vlevel >= 1 (at level 0 parsed values are still encoded strings)")
+
+
+def _check_values(out, tier, seed):
     vals = c20_values(tier, seed)
     jobs = []
     for val, modes in vals:
@@ -1325,6 +1723,20 @@ def replay(prop, v, path):
             print("  %-8s %-12s %s -> %s%s%s" % (e["k"], e["c"], json.dumps(val) if val else "", e["res"],
                                                " (" + exc + ")" if exc else "", " [# INVALID]" if e["mark"] else ""))
         rej, _ = validate_cases("prog", [case], "fields-replay")
+    elif kind == "gprog":
+        p = v["gprogram"]
+        lst = run_gfa_program((p["doc"], p["path"], p["lvl"], tuple(p["codes"]), p["offset"], p.get("seqfield", False)))
+        hit = [(c, i) for c, i in lst if i["subject"] == p["subject"]]
+        if not hit:
+            print("subject %s not found" % p["subject"])
+            return 2
+        case, info = hit[0]
+        print("  %s via %s at vlevel %d: subject %s = %r, line.vlevel = %d" % (
+            p["doc"], p["path"], p["lvl"], p["subject"], info["text"], case["linelvl"]))
+        for e, (val, exc) in zip(case["ev"], info["vals"]):
+            print("  %-8s %-12s %s -> %s%s%s" % (e["k"], e["c"], json.dumps(val) if val else "", e["res"],
+                                               " (" + exc + ")" if exc else "", " [# INVALID]" if e["mark"] else ""))
+        rej, _ = validate_cases("prog", [case], "fields-replay")
     elif kind == "lvl":
         case, info = run_doc((0, v["doc"]))
         for k, x in enumerate(info):
@@ -1340,6 +1752,14 @@ def replay(prop, v, path):
         print("  other copy: %r -> %r" % (case["ob"], case["oa"]))
         print("  gfa changed: %s" % (case["gb"] != case["ga"]))
         rej, _ = validate_cases("edit", [case], "fields-replay")
+    elif kind == "hist":
+        h = v["history"]
+        case, info = run_history((0, h["lvl"], h["init"], tuple(tuple(x) for x in h["ops"]), h["connected"]))
+        for (k, a), st in zip(h["ops"], case["steps"]):
+            o = st["o"]
+            print("  %-8s %-8s -> %s  datatype %s  written %r%s  readback %s" % (
+                k, a, o["set"], o["dt"], "".join(o["wchars"]), " [# INVALID]" if o["mark"] else "", o["rb"]))
+        rej, _ = validate_cases("hist", [case], "fields-replay")
     elif kind == "val":
         c = v["case"]
         case, info = run_value((0, c["lvl"], c["mode"], c["val"]))
@@ -1383,8 +1803,10 @@ def selftest(mutant=True):
     _expect("prog", c, None, "prog: level 2 write reports", fails)
     d = copy.deepcopy(c); d["ev"][1].update(res="ok")
     _expect("prog", d, "C18.level2-not-at-write", "prog: pretend level 2 write silent", fails)
-    d = copy.deepcopy(c); d["lvl"] = 1; d["ev"][1].update(res="ok")
+    d = copy.deepcopy(c); d["lvl"] = 1; d["linelvl"] = 1; d["ev"][1].update(res="ok")
     _expect("prog", d, None, "prog: level 1 write may be silent", fails)
+    d = copy.deepcopy(c); d["linelvl"] = 1
+    _expect("prog", d, "C18.level-not-propagated", "prog: pretend the line works at another level", fails)
     c, _ = run_program((0, 1, "Z:xz", ("set.wrongsyntax", "validate", "vfield"), 0, False))
     _expect("prog", c, None, "prog: validate reports at level 1", fails)
     d = copy.deepcopy(c); d["ev"][2].update(res="ok")
@@ -1455,6 +1877,27 @@ def selftest(mutant=True):
     _expect("val", c, None, "val: 2^63+1", fails)
     d = copy.deepcopy(c); d["dt"] = "f"; d["wchars"][3] = "f"
     _expect("val", d, "C20.datatype", "val: pretend int got f", fails)
+    # ---- C18: a line obtained from a Gfa
+    lst = run_gfa_program(("g2.S-first", "text", 3, ("set.wrongsyntax", "str"), 0, False))
+    c = [x for x, i in lst if i["subject"].endswith("E.xx")][0]
+    _expect("prog", c, None, "gprog: edge of a Gfa at level 3", fails)
+    d = copy.deepcopy(c); d["linelvl"] = 1
+    _expect("prog", d, "C18.level-not-propagated", "gprog: pretend the edge works at level 1", fails)
+    d = copy.deepcopy(c); d["ev"][0].update(res="ok", kept="F")
+    _expect("prog", d, "C18.level3-not-at-set", "gprog: pretend the Gfa's level 3 did not refuse", fails)
+    # ---- C20 tag histories
+    ops = (("set", "int"), ("delete", ""), ("set", "str"))
+    c, _ = run_history((0, 1, "new", ops, False))
+    _expect("hist", c, None, "hist: set 12, delete, set 'hello'", fails)
+    d = copy.deepcopy(c); d["steps"][1]["o"]["dt"] = "i"
+    _expect("hist", d, "C20.datatype", "hist: pretend delete left the datatype i", fails)
+    d = copy.deepcopy(c); d["steps"][2]["o"].update(dt="i", w="Error", wchars=[], mark=True)
+    d["steps"][2]["o"]["rb"] = {"res": "-", "dt": "-", "eq": "-", "eqv": "-"}
+    _expect("hist", d, "C20.datatype", "hist: pretend the new tag reused datatype i", fails)
+    c, _ = run_history((0, 1, "new", (("setdt", "Z"), ("set", "str"), ("setdt", "i")), False))
+    _expect("hist", c, None, "hist: declared datatype, then a datatype that cannot hold the value", fails)
+    d = copy.deepcopy(c); d["steps"][2]["o"].update(val="ok", vf="ok")
+    _expect("hist", d, "C20.unrepresentable-emitted", "hist: pretend validate accepted 'hello' as i", fails)
     # ---- a seeded mutant of gfapy: clone copies lists shallowly (survives the test-suite)
     if mutant:
         import shutil, subprocess, tempfile
